@@ -71,9 +71,22 @@ def ctor_case(sep, family):
                 dec=lambda w: decode_result(w, lambda v: None), oracle=oracle, nontrivial=lambda m: True)
 
 
+def spurious_occurrence(tree, sep, utt):
+    """compact joining: does some separator occur in the utterance at a place
+    where the joining did not put it (an occurrence straddling tokens and
+    separators)?"""
+    def occ(x):
+        return sum(1 for i in range(len(utt)) if utt.startswith(x, i))
+    nph = sum(len(s) for w in tree for s in w)
+    nsy = sum(len(w) for w in tree)
+    want = {0: nph, 1: nsy, 2: len(tree)}
+    return any(x and occ(x) > want[i] for i, x in enumerate(sep))
+
+
 def tree_cases(tree, sep, style, family):
     """well-formed joined utterance: the property oracle applies"""
     utt = sl.render(tree, sep, style)
+    cls = (lambda out: {'spurious_separator_occurrence'} if style == 'compact' and spurious_occurrence(tree, sep, utt) else set())
     defined = [l for l, x in zip(LEVELS, sep) if x]
     want = {'phone': sl.phones_of(tree, sep), 'syllable': sl.sylls_of(tree, sep), 'word': sl.words_of(tree) if sep[2] else [''.join(sl.words_of(tree))]}
     out = []
@@ -134,6 +147,9 @@ def tree_cases(tree, sep, style, family):
         out.append(case(5, sep, utt, level, False, family))
         out.append(case(5, sep, utt, level, True, family))
     out.append(case(4, sep, utt, None, False, family))
+    for c in out:
+        c['classes'] = cls
+        c['site'] = 'separator.tokenize' if cls(None) else c['site']
     return out
 
 
@@ -143,6 +159,8 @@ def main():
     rng = ck.rng
     cases = []
     seps = list(sl.SEPARATORS) + [('_', ';esyll', None), (' ', None, None), (None, ';esyll', None)]
+    for c in load_corpus('C08'):
+        cases.extend(tree_cases(c['tree'], tuple(c['sep']), c.get('style', 'compact'), 'corpus'))
     ntrees = 400 if ck.thorough else 45
     for k in range(ntrees):
         fam = ['ascii', 'multi', 'ipa', 'sepfrag'][k % 4]
